@@ -231,6 +231,25 @@ MUTANTS = [
      "        gemini = self.get_gemini()\n\n        if self.verbose:\n            print(f\"Computing affinity\")\n\n        affinity = gemini.compute_affinity(X, y)\n\n        # Initialise the weights\n        if self.verbose:\n            print(\"Initialising parameters\")\n        self._init_params(random_state, X)\n        weights = self._get_weights()\n",
      "        # Initialise the weights\n        self._init_params(random_state, X)\n        weights = self._get_weights()\n        gemini = self.get_gemini()\n        affinity = gemini.compute_affinity(X, y)\n", ["C16"]),
     ("kauri-min-samples-unchecked", "gemclus/tree/kauri.py", "ensure_min_samples=self.min_samples_leaf)", "ensure_min_samples=1)", ["C16"]),
+    ("linearmmd-drops-kernel-params", "gemclus/linear/_linear_geminis.py",
+     "        return MMDGEMINI(ovo=self.ovo, kernel=self.kernel, kernel_params=self.kernel_params)",
+     "        return MMDGEMINI(ovo=self.ovo, kernel=self.kernel)", ["C11"]),
+    ("mlpwasserstein-ignores-ovo", "gemclus/mlp/_mlp_geminis.py",
+     "        return WassersteinGEMINI(ovo=self.ovo, metric=self.metric, metric_params=self.metric_params)",
+     "        return WassersteinGEMINI(metric=self.metric, metric_params=self.metric_params)", ["C11"]),
+    ("gemini-none-is-ovo", "gemclus/_base_gemini.py", "        if self.gemini is None:\n            return _str_to_gemini(\"mmd_ova\")",
+     "        if self.gemini is None:\n            return _str_to_gemini(\"mmd_ovo\")", ["C11", "C01"]),
+    ("sparselinearmi-kl-ovo", "gemclus/sparse/_linear_sparse.py", '            gemini="mi",\n            groups=groups,',
+     '            gemini="kl_ovo",\n            groups=groups,', ["C11"]),
+    ("kauri-kernel-name-ignored", "gemclus/tree/kauri.py", "            kernel = pairwise_kernels(X, metric=self.kernel)",
+     "            kernel = pairwise_kernels(X, metric=self.kernel if self.kernel != 'laplacian' else 'rbf')", ["C11"]),
+    ("wasserstein-metric-params-dropped", "gemclus/gemini/_geomdistances.py",
+     "        return pairwise_distances(X, metric=self.metric, **_params)", "        return pairwise_distances(X, metric=self.metric)", ["C11"]),
+    ("score-affinity-from-labels-arg", "gemclus/_base_gemini.py", "        K = gemini.compute_affinity(X, y)\n        y_pred = self.predict_proba(X)",
+     "        K = gemini.compute_affinity(X, y if y is not None else None)\n        K = K if K is None or y is not None else (K + K.T) / 2 * (1 + 1e-7)\n        y_pred = self.predict_proba(X)", ["C11", "C04"]),
+    ("categoricalmmd-kernel-params-to-linear", "gemclus/nonparametric/_categorical_models.py",
+     "        return MMDGEMINI(ovo=self.ovo, kernel=self.kernel, kernel_params=self.kernel_params)",
+     "        return MMDGEMINI(ovo=self.ovo, kernel=self.kernel, kernel_params=self.kernel_params if self.kernel != 'sigmoid' else None)", ["C11"]),
 ]
 
 
